@@ -286,6 +286,25 @@ func C15(c *ev.Ctx) {
 	if !ok {
 		return
 	}
+	// first in a process of its own (native build of the small driver): a deadlock or a crash inside the primitives
+	// must not take the check down
+	if bin := filepath.Join(c.Bin, "prims64"); fileExists(bin) {
+		cf := filepath.Join(c.Scratch, "prims-cases.json")
+		cb, _ := json.Marshal(cases)
+		_ = os.WriteFile(cf, cb, 0644)
+		out, err, timedOut := runWithDeadline(exec.Command(bin, cf), 4*time.Minute)
+		switch {
+		case strings.Contains(out, "MISMATCH"):
+			c.Violation("put-get.driver", "case table replayed in a child process: "+strings.TrimSpace(firstLines(out[strings.Index(out, "MISMATCH"):], 2)), nil)
+			return
+		case timedOut:
+			c.Violation("put-get.hang", "the case table replayed in a child process did not finish within 4 minutes: a call of the primitives never returned (after a refused call?)\n"+tlc.Tail(out, 25), map[string]string{"goroutines.txt": out})
+			return
+		case err != nil || !strings.Contains(out, "PRIMS386-DONE"):
+			c.Violation("put-get.crash", "the child process replaying the case table died: "+firstLines(out, 12), map[string]string{"output.txt": out})
+			return
+		}
+	}
 	distinct := map[string]bool{}
 	for i, pc := range cases {
 		// the buffer is a window of a larger array: 3 bytes before it, pc.Slack bytes of spare capacity behind it
